@@ -2,7 +2,7 @@
 integrity::delete_artifact executed from tensor_blob's MIR over the key/value contract of the store.  Decided: a chunk's stored
 reference count equals the number of references to it (artifacts' chunk lists plus chunks a writer has already stored), after one
 operation from every bounded state, and after two operations where one runs entirely inside a reference-count read-modify-write
-window of the other.  gc_cycle is executed as the poll function of its (non-suspending) async body.  full_gc, streaming reads, checksums, repair and real hashing are NOT decided."""
+window of the other.  gc_cycle and full_gc are executed as the poll functions of their (non-suspending) async bodies.  Streaming reads, checksums, repair and real hashing are NOT decided."""
 import sys
 import os
 import itertools
@@ -23,7 +23,7 @@ ck.assumptions = [
     'the store is its key/value contract (get hands out a copy; put, delete, exists on a finite map); TensorData is its field map',
     'Chunk::key: "_blob:chunk:" + content hash with the hash an abstract identifier: equal content <=> equal key (collision-free hash); chunk bytes are opaque',
     'a lock is honoured when the code takes one: ref_count_lock(key) (if present) is a per-key mutex released by the MIR\'s own drop',
-    'NOT decided: full_gc, a collector pass racing a writer, streaming, checksums, verify/repair, interleavings other than "B inside one window of A"',
+    'NOT decided: a collector pass racing a writer, streaming, checksums, verify/repair, interleavings other than "B inside one window of A"',
 ]
 U64 = lambda v: z3.BitVecVal(v, 64)
 CH_TPL = '_blob:chunk:'
@@ -203,7 +203,7 @@ def meta_key(aid):
 class World:
     """chunks c0..c(NC-1) stored; artifacts = list of chunk-index lists"""
 
-    def __init__(self, st, arts, pending=()):
+    def __init__(self, st, arts, pending=(), free_counts=False):
         self.cid = [z3.BitVec(f'content{i}', 64) for i in range(NC)]
         self.aid = [z3.BitVec(f'artifact{j}', 64) for j in range(len(arts))]
         for a, b in itertools.combinations(self.cid, 2):
@@ -217,7 +217,8 @@ class World:
         for i in range(NC):
             cnt = sum(l.count(i) for l in arts) + list(pending).count(i)
             r = z3.BitVec(f'refs{i}', 64)
-            st.assume(r == U64(cnt))        # invariant R in the pre-state
+            if not free_counts:
+                st.assume(r == U64(cnt))        # invariant R in the pre-state
             self.refs0.append(cnt)
             keys.append(self.ckeys[i])
             vals.append(td({'_type': Enum('TensorValue', P.variant_index('TensorValue', 'Scalar'), {('Scalar', 0): Enum('ScalarValue', P.variant_index('ScalarValue', 'String'), {('String', 0): Str(text='blob_chunk')}, variant='String')}, variant='Scalar'),
@@ -374,6 +375,45 @@ for arts in ART_SETS:
             gone = [(cid, rf) for (cid, rf) in c0 if not any(z3.is_true(z3.simplify(cid == x)) for (x, _) in c1)]
             cs = [z3.BoolVal(bool(ready)), refs_match(c1, a1, []), z3.BoolVal(len(a1) == len(a0))] + [rf == 0 for (_, rf) in gone]
             ck.require(ex, 'R4_collector_removes_only_unreferenced_chunks', r.pc, None, z3.And(cs), wit, lambda m, w_: 'collector-removed-referenced-chunk')
+# ---- R5: full_gc recounts from the artifacts' chunk lists and removes exactly the chunks nobody references
+ck.declare('R5_full_collection_removes_exactly_unreferenced', 'GarbageCollector::full_gc (one poll of its async body) on every bounded state, stored counts ARBITRARY (the recount does not trust them)',
+           'returns Ready(Ok); afterwards a chunk is stored exactly when some artifact references it; artifacts are untouched')
+
+
+def m_scan_any(c):
+    pre = deref(c.st, c.args[1])
+    if pre.text == CH_TPL:
+        return Seq('std::string::String', [k for k in kv_of(c.st).keys if is_chunk_key(k)])
+    if pre.text is not None and META_TPL and (pre.text.encode() if isinstance(META_TPL, (bytes, bytearray)) else pre.text) is not None and pre.text.startswith('_blob:meta:'):
+        return Seq('std::string::String', [k for k in kv_of(c.st).keys if k.parts is not None and k.parts[0] == META_TPL])
+    raise Unsupported('scan of ' + repr(pre.text))
+
+
+ex.extra_models['TensorStore::scan'] = m_scan_any
+full = 0
+for arts in ART_SETS:
+    st = ex.new_state()
+    Wd = World(st, arts, free_counts=True)
+    gc = Struct('GarbageCollector', {F('GarbageCollector', 'store'): st.roots['store']}, lazy='GC')
+    body = Struct('{async fn body of GarbageCollector::full_gc()}', {0: ref(gc), '__state': 0})
+    c0, a0 = read_state(st)
+    res = run(st, 'GarbageCollector::full_gc::{closure#0}', [Struct('Pin', {0: ref(body)}), ref(Opaque('Context'))])
+    ck.note_path_problem(res, f'full_gc arts={arts}')
+    for r in res:
+        wit = lambda m, arts=arts: {'blob_op': 'full_gc', 'artifacts': arts}
+        if r.status == 'panic':
+            ck.require(ex, 'R5_full_collection_removes_exactly_unreferenced', r.pc, None, z3.BoolVal(False), wit, lambda m, w_: 'full-gc-panic')
+            continue
+        if r.status != 'return':
+            continue
+        full += 1
+        c1, a1 = read_state(r.st)
+        referenced = lambda cid: z3.Or([x == cid for (_, l) in a0 for x in l] + [z3.BoolVal(False)])
+        kept = lambda cid: z3.Or([x == cid for (x, _) in c1] + [z3.BoolVal(False)])
+        cs = [z3.BoolVal(len(a1) == len(a0))] + [kept(cid) == referenced(cid) for (cid, _) in c0]
+        ck.require(ex, 'R5_full_collection_removes_exactly_unreferenced', r.pc, None, z3.And(cs), wit, lambda m, w_: 'full-gc-wrong-set')
+if full == 0:
+    ck.inconclusive.append('R5 vacuous: full_gc never completed')
 del ex.extra_models['TensorStore::scan']
 if polled == 0:
     ck.inconclusive.append('R4 vacuous: gc_cycle never completed')
@@ -439,6 +479,6 @@ for v in ck.violations:
     rep = Replay.call({'op': 'blob_step', **v['witness']})
     v['native'] = rep
     v['replayed'] = rep.get('violates')
-ck.functions += ['GarbageCollector::gc_cycle::{closure#0}', 'BlobWriter::store_chunk', 'gc::increment_chunk_refs', 'gc::decrement_chunk_refs', 'integrity::delete_artifact', 'streaming::get_int', 'streaming::get_pointers']
+ck.functions += ['GarbageCollector::gc_cycle::{closure#0}', 'GarbageCollector::full_gc::{closure#0}', 'BlobWriter::store_chunk', 'gc::increment_chunk_refs', 'gc::decrement_chunk_refs', 'integrity::delete_artifact', 'streaming::get_int', 'streaming::get_pointers']
 if __name__ == '__main__':
     ck.finish()
